@@ -69,6 +69,12 @@ def run(tier):
             "pkts": [{"d": 1, "off": o, "len": 1, "mf": o != 7} for o in order] + [{"d": 2, "off": 0, "len": 2, "mf": False}]}
            for order in ([7, 6, 5, 4, 3, 2, 1, 0], [0, 2, 4, 6, 1, 3, 5, 7], [3, 3, 0, 1, 2, 4, 5, 6, 7])]
     scen += big
+    # the upper end of the quantifier: header + payload = 65535 octets exactly (payload 65515), one and two octets below it,
+    # in several arrival orders (unit 8192 octets, the last unit cut short by `trim`)
+    for trim in (21, 22, 23, 29):
+        for order in ([7, 6, 5, 4, 3, 2, 1, 0], [0, 1, 2, 3, 4, 5, 6, 7], [7, 0, 3, 3, 1, 2, 6, 5, 4]):
+            scen.append({"n": [8, 1], "scale": 1024, "mode": "distinct_id", "trim": trim,
+                         "pkts": [{"d": 1, "off": o, "len": 1, "mf": o != 7} for o in order] + [{"d": 2, "off": 0, "len": 1, "mf": False}]})
     # adversarial concretisation (DESIGN 2.5): every single bit of the 13-bit fragment-offset field, alone, on a
     # final fragment (MF clear) and on a middle fragment (MF set), in both arrival orders
     for kbit in range(13):
@@ -98,7 +104,7 @@ def run(tier):
         "rule": "scenario = two concurrent datagrams (1..8 units, any partition) whose fragments arrive in any order "
                 "with duplicates, interleaved with unfragmented packets; TLC BFS (depth 4), TLC -simulate (depth 9) and "
                 "seeded complete shuffles; key relation rotates over {different id, different host, reverse direction}; "
-                "unit size rotates over 8..8184 bytes, protocols UDP/TCP/ICMP; non-trivial = fragments of both datagrams "
+                "unit size rotates over 8..8192 bytes (payloads up to the 65515 octets the length field allows), protocols UDP/TCP/ICMP and ten numbers libtins has no class for; non-trivial = fragments of both datagrams "
                 "interleaved or >=3 fragments out of offset order",
         "model_checked": {"IPv4ReassemblerImpl": [{"mode": km, "distinct": r.distinct, "generated": r.generated} for km, r in zip(MODES, mc)],
                           "model_mutants_refuted": refuted},
